@@ -51,6 +51,27 @@
 // unjudged until a later command on them exits 0. The frame check is unchanged: whatever the
 // exit status, no other (pattern, path) assignment may change.
 //
+// How the working directory is reached (one third of the cases, and every focus case in all
+// four variants): the physical path (no PWD, as a plain exec gives it), or a logical path
+// through a directory symlink that points to the repository's parent, to the repository or
+// to the parent of the invocation directory, with PWD = that logical path as a shell would
+// set it after `cd`. The directory is the same one in every variant, so nothing in the
+// expectations depends on it; only the `git lfs` commands see the logical path, every oracle
+// query (check-attr, reading .gitattributes) goes through the physical one. That the child
+// really sees the logical path is checked per case with `pwd -L` (POSIX: PWD is used iff it
+// names the current directory, the same rule Go's os.Getwd applies).
+//
+// "Re-running track with the same argument changes nothing" is read as: a plain `git lfs
+// track A` (no lockable option) whose arguments are all tracked already changes no
+// .gitattributes file. "Tracked already" is decided without git-lfs: an earlier command of
+// this sequence that exited 0 tracked A and none untracked it since, or (parent-covers
+// cases) the pre-existing top-level file holds the LFS line "d/P" for the pattern P typed in
+// d and Git confirms the complete LFS row for every path P denotes before the first command.
+// Compared: the bytes of every .gitattributes of the work tree. Tolerated and counted: a
+// difference in line endings / blank lines only, and a NEW EMPTY .gitattributes ("already
+// supported" in a directory without one leaves an empty file behind; it assigns nothing).
+// After `track --lockable A; track A` Git must still report lockable=set for A's paths.
+//
 // No wall clock is used by any oracle; the command watchdog is 5 minutes and a
 // fired watchdog is "inconclusive".
 package main
@@ -294,6 +315,79 @@ func runCase(c Case) (res result) {
 			res.counts["indexed_state_gitattributes_over_4k"]++
 		}
 	}
+	// ---- how the working directory is reached ------------------------------------
+	cwdKind := c.Cwd
+	if cwdKind == "" {
+		cwdKind = cwdPhysical
+	}
+	logical, setup := wd, "cd <repo>/"+shq(c.Dir)
+	if cwdKind != cwdPhysical {
+		lnk := filepath.Join(env.Dir("lnk"), "L")
+		target := ""
+		switch cwdKind {
+		case cwdRepoParent:
+			target, logical = env.Root, filepath.Join(lnk, "r", c.Dir)
+			setup = "ln -s <parent of repo> <L>; cd <L>/r/" + shq(c.Dir)
+		case cwdRepo:
+			target, logical = repo, filepath.Join(lnk, c.Dir)
+			setup = "ln -s <repo> <L>; cd <L>/" + shq(c.Dir)
+		case cwdSubParent:
+			if !strings.Contains(c.Dir, "/") {
+				panic("cwd kind " + cwdKind + " needs a nested invocation directory, got " + strconv.Quote(c.Dir))
+			}
+			target, logical = filepath.Join(repo, path.Dir(c.Dir)), filepath.Join(lnk, path.Base(c.Dir))
+			setup = "ln -s <repo>/" + shq(path.Dir(c.Dir)) + " <L>; cd <L>/" + shq(path.Base(c.Dir))
+		default:
+			panic("unknown cwd kind " + cwdKind)
+		}
+		must(os.Symlink(target, lnk))
+		setup += "   # <L> outside the repository; PWD = this logical path"
+	}
+	cwdOpt := sbx.RunOpt{Dir: logical}
+	if cwdKind != cwdPhysical {
+		cwdOpt.Env = []string{"PWD=" + logical}
+		// the child must see the logical path, and it must be the same directory
+		pr := env.Run(cwdOpt, "/bin/sh", "-c", "pwd -L; pwd -P")
+		want := logical + "\n" + wd + "\n"
+		if rw, err := filepath.EvalSymlinks(wd); err == nil {
+			want = logical + "\n" + rw + "\n"
+		}
+		if !pr.OK() || string(pr.Stdout) != want {
+			panic("logical working directory not in force: want " + strconv.Quote(want) + " got " + pr.String())
+		}
+		res.counts["logical_cwd_confirmed_by_pwd_L"]++
+	}
+	res.counts["cases_cwd/"+cwdKind]++
+	// Trigger of a violation without an argument-intrinsic known coordinate
+	unattr := func(a Arg) string {
+		if cwdKind != cwdPhysical {
+			return cwdTrigger(cwdKind)
+		}
+		return unattributed(a)
+	}
+	frameTrig := "unattributed:frame"
+	if cwdKind != cwdPhysical {
+		frameTrig = cwdTrigger(cwdKind)
+	}
+	// Trigger for the re-track clauses: intrinsic coordinates of the arguments first
+	retrackTrig := func(args []int) string {
+		for _, ai := range args {
+			if needsAttrEscape(c.Args[ai]) {
+				return trigNeedsEsc
+			}
+		}
+		for _, a := range c.Args { // whichever argument: its line sits in the same file
+			if loneLeadingDquote(a) {
+				return trigLoneDquote
+			}
+		}
+		for _, ai := range args {
+			if anchoredAtTop(c, c.Args[ai]) {
+				return trigAnchoredTop
+			}
+		}
+		return unattr(c.Args[args[0]])
+	}
 	attrFile := filepath.Join(wd, ".gitattributes")
 	inDir := func(rel string) string {
 		if c.Dir == "" {
@@ -395,13 +489,38 @@ func runCase(c Case) (res result) {
 		}
 	}
 
+	// parent-covers: the top-level file is said to hold the LFS line for <dir>/<pattern>; Git
+	// must confirm the complete LFS row for every denoted path before the first command
+	precovered := make([]bool, n)
+	for i, a := range c.Args {
+		if !strings.HasPrefix(a.Own, "parent-covers") {
+			continue
+		}
+		ok := len(mustSet[i]) > 0
+		for u := range mustSet[i] {
+			if !(attrOf(s0, u, "filter") == "lfs" && attrOf(s0, u, "diff") == "lfs" && attrOf(s0, u, "merge") == "lfs" && attrOf(s0, u, "text") == "unset") {
+				ok = false
+			}
+			if a.Own == "parent-covers-lockable" && attrOf(s0, u, "lockable") != "set" {
+				ok = false
+			}
+		}
+		precovered[i] = ok
+		if ok {
+			res.counts["precovered_premise_confirmed_by_git"]++
+			res.counts["precovered_denoted_paths"] += int64(len(mustSet[i]))
+		} else {
+			res.counts["precovered_premise_not_confirmed_by_git"]++
+		}
+	}
+
 	st := make([]int, n)
 	lk := make([]int, n)
 	desync := make([]bool, n)
 	replain := make([]bool, n) // plain track just re-ran on a tracked+lockable argument
 	everSpace := false
 	var transcript []string
-	transcript = append(transcript, "cd <repo>/"+shq(c.Dir))
+	transcript = append(transcript, setup)
 	seen := map[string]bool{}
 	var lastOut sbx.Result
 	report := func(k int, sig evid.Sig, what string, extra map[string]any) {
@@ -426,6 +545,7 @@ func runCase(c Case) (res result) {
 
 	prevAfter, perr := os.ReadFile(attrFile)
 	prevExists := perr == nil
+	prevSnap := snapAttrFiles(repo)
 	prevT := s0   // table after the previous command
 	errTrig := "" // sticky: an indexed-state command has exited non-zero earlier in this sequence
 	for k, step := range c.Steps {
@@ -455,9 +575,10 @@ func runCase(c Case) (res result) {
 			}
 		}
 		transcript = append(transcript, line)
-		out := env.Run(sbx.RunOpt{Dir: wd}, "git-lfs", argv...)
+		out := env.Run(cwdOpt, "git-lfs", argv...)
 		lastOut = out
 		res.counts["git_lfs_commands"]++
+		res.counts["git_lfs_commands_cwd/"+cwdKind]++
 		if out.TimedOut {
 			res.inconclusive = "watchdog: " + line
 			return
@@ -487,13 +608,19 @@ func runCase(c Case) (res result) {
 			}
 		}
 		if out.GoCrash() {
-			report(k, evid.Sig{Symptom: "go-panic", Trigger: step.Op + ":" + unattributed(c.Args[step.Args[0]])}, "git-lfs died with a Go panic: "+line, map[string]any{"stderr": sbx.Trunc(out.Stderr, 4000)})
+			report(k, evid.Sig{Symptom: "go-panic", Trigger: step.Op + ":" + unattr(c.Args[step.Args[0]])}, "git-lfs died with a Go panic: "+line, map[string]any{"stderr": sbx.Trunc(out.Stderr, 4000)})
 		}
 		after, err := os.ReadFile(attrFile)
 		exists := err == nil
+		snap := snapAttrFiles(repo)
+		attrRel := ".gitattributes"
+		if c.Dir != "" {
+			attrRel = c.Dir + "/.gitattributes"
+		}
+		identicalRepeat := k > 0 && step.Op != "untrack" && step.same(c.Steps[k-1])
 
 		// ---- idempotence of an identical, immediately repeated track ---------
-		if k > 0 && step.Op != "untrack" && step.same(c.Steps[k-1]) {
+		if identicalRepeat {
 			res.counts["idempotence_checks"]++
 			res.counts["idempotence_bytes_compared"] += int64(len(after))
 			if exists == prevExists && !bytes.Equal(after, prevAfter) && sameLines(after, prevAfter) {
@@ -510,14 +637,79 @@ func runCase(c Case) (res result) {
 					}
 				}
 				if trig == "" {
-					trig = unattributed(c.Args[step.Args[0]])
+					trig = unattr(c.Args[step.Args[0]])
 				}
 				report(k, evid.Sig{Symptom: "retrack-not-idempotent", Trigger: trig},
 					fmt.Sprintf("second identical `%s` changed .gitattributes (%d -> %d bytes)", line, len(prevAfter), len(after)),
 					map[string]any{"gitattributes_before_second_quoted": strconv.Quote(string(prevAfter))})
 			}
+			// ... and every OTHER .gitattributes of the work tree: byte-identical, none appeared with content
+			ds := diffSnaps(prevSnap, snap)
+			res.counts["idempotence_files_compared"] += int64(len(snap))
+			for _, d := range ds {
+				if d.rel == attrRel {
+					continue // judged just above
+				}
+				switch d.kind {
+				case "created-empty":
+					res.counts["observed_retrack_created_empty_gitattributes"]++
+				case "eol-only":
+					res.counts["observed_retrack_changed_only_line_endings"]++
+				default:
+					report(k, evid.Sig{Symptom: "retrack-not-idempotent", Trigger: retrackTrig(step.Args)},
+						fmt.Sprintf("second identical `%s`: %s %s", line, d.rel, d.kind),
+						map[string]any{"file": d.rel, "before_quoted": strconv.Quote(string(d.before)), "after_quoted": strconv.Quote(string(d.after))})
+				}
+			}
+		}
+
+		// ---- plain `track A` while every argument is tracked already changes no .gitattributes -----
+		// (the identical repetition is judged above; this is `track A` after `track --lockable A`,
+		// after `--not-lockable A`, after `track B`, ..., or the first `track P` of a parent-covers case)
+		if step.Op == "track" && !identicalRepeat && !errExit {
+			established, skipped := true, false
+			for _, ai := range step.Args {
+				switch {
+				case desync[ai]:
+					skipped = true
+				case st[ai] == stTracked:
+				case st[ai] == stUntouched && precovered[ai]:
+				default:
+					established = false
+				}
+			}
+			if established && skipped {
+				res.counts["retrack_checks_skipped_after_violation"]++
+			} else if established {
+				res.counts["retrack_of_tracked_checks"]++
+				res.counts["retrack_of_tracked_checks_cwd/"+cwdKind]++
+				for _, ai := range step.Args {
+					if st[ai] == stUntouched && precovered[ai] {
+						res.counts["retrack_of_precovered_checks"]++
+					}
+				}
+				res.counts["retrack_of_tracked_files_compared"] += int64(len(snap))
+				for _, f := range snap {
+					res.counts["retrack_of_tracked_bytes_compared"] += int64(len(f))
+				}
+				for _, d := range diffSnaps(prevSnap, snap) {
+					switch d.kind {
+					case "created-empty":
+						// pristine quirk: "already supported" still opens ./.gitattributes with O_CREATE.
+						// An empty file assigns nothing: counted, not judged.
+						res.counts["observed_already_supported_created_empty_gitattributes"]++
+					case "eol-only":
+						res.counts["observed_retrack_changed_only_line_endings"]++
+					default:
+						report(k, evid.Sig{Symptom: "retrack-not-idempotent", Trigger: retrackTrig(step.Args)},
+							fmt.Sprintf("`%s` (step %d) re-tracks what is tracked already, but %s %s (%d -> %d bytes)", line, k+1, d.rel, d.kind, len(d.before), len(d.after)),
+							map[string]any{"file": d.rel, "before_quoted": strconv.Quote(string(d.before)), "after_quoted": strconv.Quote(string(d.after))})
+					}
+				}
+			}
 		}
 		prevAfter, prevExists = after, exists
+		prevSnap = snap
 
 		// ---- model -------------------------------------------------------------
 		for _, ai := range step.Args {
@@ -533,9 +725,12 @@ func runCase(c Case) (res result) {
 			switch step.Op {
 			case "track":
 				if st[ai] == stTracked && lk[ai] == lkYes {
-					// The statement says nothing about `lockable` after a plain re-track of an
-					// already tracked argument (git-lfs keeps it for most patterns but drops
-					// it e.g. for root-anchored "/x" patterns): not judged, only observed below.
+					// Plain re-track of an argument that `--lockable` made lockable: re-running track
+					// with the same argument changes nothing, so lockable must stay set. Judged in
+					// the replain block below under its own symptom (git-lfs keeps it for most
+					// patterns but drops it for root-anchored "/x" patterns typed at the top
+					// level: coordinate trigAnchoredTop); the model itself stays agnostic so that
+					// the later lockable clauses are not a second report of the same thing.
 					lk[ai] = lkUnknown
 					replain[ai] = true
 				}
@@ -620,8 +815,10 @@ func runCase(c Case) (res result) {
 				}
 				if replain[ai] {
 					res.counts["observed_plain_retrack_of_lockable"]++
-					if attrOf(t, u, "lockable") != "set" {
+					if v := attrOf(t, u, "lockable"); v != "set" {
 						res.counts["observed_plain_retrack_dropped_lockable"]++
+						bad("lockable-dropped-by-plain-retrack", retrackTrig([]int{ai}), "lockable was set by --lockable; a plain re-track of the same argument left lockable="+v)
+						break
 					}
 				}
 				switch st[ai] {
@@ -630,14 +827,14 @@ func runCase(c Case) (res result) {
 					res.counts["attr_values_compared"] += int64(nn)
 					res.counts["must_paths_checked_untouched"]++
 					if len(d) > 0 {
-						bad("untouched-argument-changed", unattributed(a), "argument not yet used, but its path changed: "+strings.Join(d, "; "))
+						bad("untouched-argument-changed", unattr(a), "argument not yet used, but its path changed: "+strings.Join(d, "; "))
 					}
 				case stTracked:
 					res.counts["must_paths_checked_tracked"]++
 					res.counts["attr_values_compared"] += 4
 					nt := a.Hazard
 					if nt == "" {
-						nt = unattributed(a)
+						nt = unattr(a)
 					}
 					if f := attrOf(t, u, "filter"); f != "lfs" {
 						bad("not-tracked", nt, "denoted by the tracked argument but filter="+f)
@@ -647,7 +844,10 @@ func runCase(c Case) (res result) {
 						bad("lfs-attrs-incomplete", nt, fmt.Sprintf("filter=lfs but diff=%s merge=%s text=%s", attrOf(t, u, "diff"), attrOf(t, u, "merge"), attrOf(t, u, "text")))
 						break
 					}
-					lt := unattributed(a)
+					lt := unattr(a)
+					if strings.HasPrefix(a.Own, "parent-covers") {
+						lt = trigParentCover
+					}
 					if needsAttrEscape(a) {
 						lt = trigNeedsEsc
 					}
@@ -669,7 +869,7 @@ func runCase(c Case) (res result) {
 					res.counts["must_paths_checked_untracked"]++
 					res.counts["attr_values_compared"]++
 					if v, w := attrOf(t, u, "filter"), attrOf(s0, u, "filter"); v != w {
-						ut := unattributed(a)
+						ut := unattr(a)
 						if filenameHasGlob(a) {
 							ut = trigUntrackGlob
 						}
@@ -708,13 +908,13 @@ func runCase(c Case) (res result) {
 			if len(d) == 0 {
 				continue
 			}
-			sig := evid.Sig{Symptom: "unrelated-changed", Trigger: "unattributed:frame"}
+			sig := evid.Sig{Symptom: "unrelated-changed", Trigger: frameTrig}
 			if errTrig != "" {
 				sig.Trigger = errTrig
 			}
 			if attrOf(t, u, "filter") == "lfs" && attrOf(s0, u, "filter") != "lfs" {
 				sig.Symptom = "over-match"
-				sig.Trigger = "unattributed:frame"
+				sig.Trigger = frameTrig
 				// witness-based attribution: u is the TAB variant of a denoted path of an argument containing a space
 				for _, a := range c.Args {
 					// the line written for a "body"tail / TAB name is read by Git as a pattern for another path
@@ -736,6 +936,60 @@ func runCase(c Case) (res result) {
 		}
 		prevT = t
 	}
+	return
+}
+
+// snapAttrFiles: bytes of every .gitattributes in the work tree (path relative to it).
+func snapAttrFiles(repo string) map[string][]byte {
+	m := map[string][]byte{}
+	filepath.Walk(repo, func(p string, fi os.FileInfo, err error) error {
+		if err != nil {
+			return nil
+		}
+		if fi.IsDir() {
+			if p == filepath.Join(repo, ".git") {
+				return filepath.SkipDir
+			}
+			return nil
+		}
+		if fi.Name() == ".gitattributes" && fi.Mode().IsRegular() {
+			if b, e := os.ReadFile(p); e == nil {
+				rel, _ := filepath.Rel(repo, p)
+				m[filepath.ToSlash(rel)] = b
+			}
+		}
+		return nil
+	})
+	return m
+}
+
+type snapDiff struct {
+	rel           string
+	kind          string // created-empty | created-with-content | removed | eol-only | changed
+	before, after []byte
+}
+
+func diffSnaps(a, b map[string][]byte) (out []snapDiff) {
+	for rel, after := range b {
+		before, was := a[rel]
+		switch {
+		case !was && len(after) == 0:
+			out = append(out, snapDiff{rel, "created-empty", nil, after})
+		case !was:
+			out = append(out, snapDiff{rel, "created-with-content", nil, after})
+		case bytes.Equal(before, after):
+		case sameLines(before, after):
+			out = append(out, snapDiff{rel, "eol-only", before, after})
+		default:
+			out = append(out, snapDiff{rel, "changed", before, after})
+		}
+	}
+	for rel, before := range a {
+		if _, ok := b[rel]; !ok {
+			out = append(out, snapDiff{rel, "removed", before, nil})
+		}
+	}
+	sort.Slice(out, func(i, j int) bool { return out[i].rel < out[j].rel })
 	return
 }
 
@@ -773,13 +1027,14 @@ type sample struct {
 	Index int      `json:"case_index"`
 	Class string   `json:"class"`
 	Dir   string   `json:"invocation_dir"`
+	Cwd   string   `json:"cwd_reached_via"`
 	Args  []string `json:"args"`
 	Steps []string `json:"steps"`
 	USize int      `json:"universe_size"`
 }
 
 func mkSample(c Case) sample {
-	s := sample{Index: c.Index, Class: c.class(), Dir: c.Dir, USize: len(c.U)}
+	s := sample{Index: c.Index, Class: c.class(), Dir: c.Dir, Cwd: c.Cwd, USize: len(c.U)}
 	for _, a := range c.Args {
 		s.Args = append(s.Args, a.Mode+":"+strconv.Quote(a.Text))
 	}
@@ -846,7 +1101,7 @@ func main() {
 		replay(p)
 	}
 	run := evid.New("C19", "exploration")
-	run.Rule = "seeded generator, case = (invocation directory, pre-existing .gitattributes variant, 1-2 arguments, sequence of 1..8 track/--lockable/--not-lockable/untrack/repeat commands). Arguments: patterns from a small glob grammar (literal, *.ext, lit*, lit?ext, [0-9], dir/*.ext, dir/**, **/x, leading /; literals over letters, digits, space, #, quotes, !, punctuation, non-ASCII) or --filename names over printable ASCII, space, TAB, quotes, #, !, * ? [ ], backslash, non-ASCII, optionally below a sub-directory. Universe U per case = paths drawn from the argument's shape plus near misses (space<->TAB, other directory depth, outside the invocation directory, case, suffix/prefix, glob characters expanded, escapes added/removed) plus paths covered by the pre-existing patterns. Oracle = git check-attr -a on U in the repository under test against (a) Git's own matcher on the C-quoted pattern in a twin repository, (b) the single path d/N for --filename, (c) the table before the sequence. A class is (argument modes, feature set or known-trigger coordinate of each argument, kind of invocation directory, pre-existing variant); distinct_nontrivial counts classes executed."
+	run.Rule = "seeded generator, case = (invocation directory, pre-existing .gitattributes variant, 1-2 arguments, sequence of 1..8 track/--lockable/--not-lockable/untrack/repeat commands). Arguments: patterns from a small glob grammar (literal, *.ext, lit*, lit?ext, [0-9], dir/*.ext, dir/**, **/x, leading /; literals over letters, digits, space, #, quotes, !, punctuation, non-ASCII) or --filename names over printable ASCII, space, TAB, quotes, #, !, * ? [ ], backslash, non-ASCII, optionally below a sub-directory. Universe U per case = paths drawn from the argument's shape plus near misses (space<->TAB, other directory depth, outside the invocation directory, case, suffix/prefix, glob characters expanded, escapes added/removed) plus paths covered by the pre-existing patterns. Oracle = git check-attr -a on U in the repository under test against (a) Git's own matcher on the C-quoted pattern in a twin repository, (b) the single path d/N for --filename, (c) the table before the sequence. Working directory of the git-lfs commands: physical path, or (one case in three) a logical path with PWD set, through a symlink to the repository's parent / the repository / the parent of a nested invocation directory. Appended focus cases (index >= 2^20): {track --lockable A; track A; track A ...}, {track P twice from d while the top-level file already holds the LFS line d/P}, {op1 A; op1 A; op2 A; op2 A}, each under all four ways of reaching the working directory. A class is (argument modes, feature set or known-trigger coordinate of each argument, kind of invocation directory, pre-existing variant, way the working directory is reached, focus kind); distinct_nontrivial counts classes executed."
 	run.Assumptions = []string{
 		"Git 2.39's check-attr and its reading of C-quoted patterns in .gitattributes are the authority on what a pattern denotes",
 		"--filename N without '/' : only d/N must be tracked, d/**/N may be (gitattributes basename rule); everything else must not change",
@@ -855,13 +1110,21 @@ func main() {
 		"after untrack only the filter attribute of the denoted paths is demanded to be what the other patterns give",
 		"no .gitattributes below the invocation directory and no .git/info/attributes exist (they would legitimately take precedence)",
 		"paths denoted by two arguments of the same case are not judged",
+		"re-running track with the same argument = a plain `track A` whose arguments are all tracked already (by an earlier exit-0 command of the sequence, or by a pre-existing top-level LFS line d/P confirmed by Git): no .gitattributes may change; a new EMPTY .gitattributes and line-ending-only differences are counted, not judged",
+		"a shell that entered the repository through a directory symlink is modelled by cwd = logical path and PWD = logical path (confirmed per case with pwd -L)",
 	}
-	total := run.N(176, 5000)
+	base := run.N(176, 5000)
+	nfocus := run.N(36, 720) // multiple of 12 = 3 focus kinds x 4 ways of reaching the working directory
+	total := base + nfocus
 	run.SetMinEvaluations(total / 2)
 
 	cases := make([]Case, total)
 	for i := range cases {
-		cases[i] = genCase(run.Seed, i)
+		if i < base {
+			cases[i] = genCase(run.Seed, i)
+		} else {
+			cases[i] = genCase(run.Seed, focusBase+i-base)
+		}
 	}
 	results := make([]result, total)
 	infras := make([]string, total)
@@ -889,15 +1152,16 @@ func main() {
 	trig := map[string]int{}
 	lens := map[string]int{}
 	pres := map[string]int{}
+	cwds := map[string]int{}
 	var mustChecks int64
 	for i, res := range results {
 		if infras[i] != "" {
 			sbx.RemoveBase()
-			run.Infra("case %d: %s", i, infras[i])
+			run.Infra("case %d: %s", cases[i].Index, infras[i])
 		}
 		c := cases[i]
 		if res.inconclusive != "" {
-			run.Inconclusive(fmt.Sprintf("case %d: %s", i, res.inconclusive))
+			run.Inconclusive(fmt.Sprintf("case %d: %s", cases[i].Index, res.inconclusive))
 			continue
 		}
 		run.Case(c.class(), mkSample(c))
@@ -907,6 +1171,7 @@ func main() {
 		mustChecks += res.counts["must_paths_checked_tracked"]
 		lens[fmt.Sprintf("len=%d", len(c.Steps))]++
 		pres[c.PreKind]++
+		cwds[c.Cwd]++
 		if c.PreRoot != nil && !strings.HasSuffix(*c.PreRoot, "\n") {
 			run.Count("cases_toplevel_gitattributes_last_line_unterminated", 1)
 			if !strings.Contains(*c.PreRoot, "\n") {
@@ -950,6 +1215,7 @@ func main() {
 	run.Set("cases_per_trigger_coordinate", trig)
 	run.Set("cases_per_sequence_length", lens)
 	run.Set("cases_per_preexisting_variant", pres)
+	run.Set("cases_per_cwd_kind", cwds)
 	sbx.RemoveBase()
 	if mustChecks == 0 {
 		run.Infra("monitor observed no tracked path at all")
